@@ -639,8 +639,17 @@ func runCheck(e Engine, tier string, seed uint64, workers int, runsOverride int,
 	}
 	// reach: every fault kind fired and every probe hit, else the workload is broken
 	var unreached []string
+	// (a probe that can only fire where the code under test has a certain shape - a
+	// lock on the request path, say - is required only if that shape was met at all)
+	var needs map[string]string
+	if pc, ok := e.(interface{ ProbeNeeds() map[string]string }); ok {
+		needs = pc.ProbeNeeds()
+	}
 	for _, k := range append(append([]string{}, e.FaultKinds()...), e.Probes()...) {
 		if m.Stats[k] == 0 {
+			if pre, ok := needs[k]; ok && m.Stats[pre] == 0 {
+				continue
+			}
 			unreached = append(unreached, k)
 		}
 	}
